@@ -62,6 +62,10 @@ pub enum Case17 {
     TagsList { tags: Vec<String> },
     Material { index: usize, rgb: (u8, u8, u8) },
     LuaSample { name: String },
+    /// blob -> value -> blob: every byte string of this length over the tag alphabet
+    TagsBlobs { len: usize },
+    /// blob -> value -> blob for MaterialColors: one blob length, several fillings
+    MaterialBlob { len: usize },
 }
 
 pub fn all_types() -> Vec<VariantType> {
@@ -300,6 +304,82 @@ pub fn judge(c: &Case17) -> Vec<(String, String)> {
                 out.push((format!("serde|{}|{:?}", k, m), w));
             }
         }
+        Case17::TagsBlobs { len } => {
+            // NUL, ASCII, the two bytes of "é" (valid only as a pair), a lone invalid byte
+            let alpha = [0u8, b'a', b' ', 0xC3, 0xA9, 0xFF];
+            let mut idx = vec![0usize; *len];
+            loop {
+                let blob: Vec<u8> = idx.iter().map(|i| alpha[*i]).collect();
+                let segs: Vec<&[u8]> = blob.split(|b| *b == 0).filter(|s| !s.is_empty()).collect();
+                let valid = segs.iter().all(|s| std::str::from_utf8(s).is_ok());
+                match Tags::decode(&blob) {
+                    Ok(t) => {
+                        let got: Vec<&[u8]> = t.iter().map(|s| s.as_bytes()).collect();
+                        if !valid {
+                            out.push(("tags-blob|accepts-invalid".into(), format!("Tags::decode({:02x?}) accepted bytes that are not UTF-8", blob)));
+                        } else if got != segs {
+                            out.push(("tags-blob|members".into(), format!("Tags::decode({:02x?}) has members {:02x?}, the blob lists {:02x?}", blob, got, segs)));
+                        } else {
+                            let want: Vec<u8> = segs.join(&0u8);
+                            let enc = t.encode();
+                            if enc != want {
+                                out.push(("tags-blob|reencode".into(), format!("blob {:02x?} decodes and re-encodes to {:02x?} (its tags joined by NUL are {:02x?})", blob, enc, want)));
+                            }
+                        }
+                    }
+                    Err(_) => {
+                        if valid {
+                            out.push(("tags-blob|rejects-valid".into(), format!("Tags::decode({:02x?}) fails on valid UTF-8 tags", blob)));
+                        }
+                    }
+                }
+                let mut k = 0;
+                while k < *len {
+                    idx[k] += 1;
+                    if idx[k] < alpha.len() {
+                        break;
+                    }
+                    idx[k] = 0;
+                    k += 1;
+                }
+                if k == *len {
+                    break;
+                }
+            }
+        }
+        Case17::MaterialBlob { len } => {
+            let fills: Vec<Box<dyn Fn(usize) -> u8>> = vec![
+                Box::new(|_| 0u8),
+                Box::new(|_| 0xFFu8),
+                Box::new(|i| (i as u8).wrapping_mul(3).wrapping_add(1)),
+                Box::new(|i| if i < 6 { 0 } else { 255 - i as u8 }),
+            ];
+            for (fi, f) in fills.iter().enumerate() {
+                let blob: Vec<u8> = (0..*len).map(|i| f(i)).collect();
+                if let Ok(mc) = MaterialColors::decode(&blob) {
+                    let enc = mc.encode();
+                    // docs/binary-strings.md: the two reserved rows are written as zero
+                    let mut want = blob.clone();
+                    for b in want.iter_mut().take(6) {
+                        *b = 0;
+                    }
+                    if enc != want {
+                        out.push((
+                            format!("materialcolors-blob|reencode|{}", if *len == 69 { "len69" } else { "other-length" }),
+                            format!("a {}-byte blob (filling {}) is accepted and re-encodes to {} bytes{}", len, fi, enc.len(), if enc.len() == want.len() { " with different colours" } else { "" }),
+                        ));
+                    }
+                    for (i, m) in materials().iter().enumerate() {
+                        let o = 6 + 3 * i;
+                        if o + 2 < blob.len() && mc.get_color(*m) != Color3uint8::new(blob[o], blob[o + 1], blob[o + 2]) {
+                            out.push(("materialcolors-blob|colour".into(), format!("blob filling {}: {:?} is {:?}, the blob says {:?}", fi, m, mc.get_color(*m), &blob[o..o + 3])));
+                        }
+                    }
+                } else if *len == 69 {
+                    out.push(("materialcolors-blob|rejects-69".into(), format!("a 69-byte blob (filling {}) is rejected", fi)));
+                }
+            }
+        }
         Case17::LuaSample { name } => {
             let all = lua_samples();
             let entry = &all[name];
@@ -390,6 +470,12 @@ pub fn cases() -> Vec<Case17> {
             out.push(Case17::Material { index: i, rgb });
         }
     }
+    for len in 0..=6 {
+        out.push(Case17::TagsBlobs { len });
+    }
+    for len in 0..=300 {
+        out.push(Case17::MaterialBlob { len });
+    }
     for name in lua_samples().keys() {
         out.push(Case17::LuaSample { name: name.clone() });
     }
@@ -423,7 +509,7 @@ pub fn check(run: &Run) -> Value {
         "samples": total.samples.iter().map(|s| serde_json::from_str::<Value>(s).unwrap()).collect::<Vec<_>>(),
         "exhaustive": true,
         "exhaustive_subdomains": ["all 65536 u16 BrickColor numbers", "all 256 Faces and Axes bit sets", "every entry of rbx_dom_lua/src/allValues.json"],
-        "rule": "every alphabet value of every Variant type through serde_json (from_str, from_slice, from_reader, from_value, pretty text; finite floats), bincode and MessagePack (compact and named); all u16 through BrickColor number/name/serde; all 256 bit sets; Ref Display/FromStr over 0, MAX and every single-bit value; UniqueId Display/FromStr over the boundary product incl. negative random parts; Tags and MaterialColors blobs; every allValues.json sample decoded through three entry points and re-encoded",
+        "rule": "every alphabet value of every Variant type through serde_json (from_str, from_slice, from_reader, from_value, pretty text; finite floats), bincode and MessagePack (compact and named); all u16 through BrickColor number/name/serde; all 256 bit sets; Ref Display/FromStr over 0, MAX and every single-bit value; UniqueId Display/FromStr over the boundary product incl. negative random parts; Tags and MaterialColors value -> blob -> value, and blob -> value -> blob for every byte string of length <= 6 over {NUL, 'a', ' ', C3, A9, FF} (Tags) and blobs of every length 0..=300 in four fillings (MaterialColors: an accepted blob must re-encode to itself, reserved rows zeroed); every allValues.json sample decoded through three entry points and re-encoded",
     })
 }
 
